@@ -10,16 +10,19 @@ Init == tid \in 1..Len(Traces) /\ l = 1
 Tr == Traces[tid]
 Ck(name, ok) == Check(name, tid, l, ok)
 Store(j) == [sx |-> j.sx, sy |-> j.sy]
+\* the target that arrived with item a: "y<a>" (logged as 100 + a), or None when the update omitted it / passed None (-2)
+NoneSet == { Tr.none[i] : i \in 1..Len(Tr.none) }
+Code(a) == IF a \in NoneSet THEN -2 ELSE 100 + a
 Step(ev) ==
    LET before == Store(ev.before)  after == Store(ev.after)
-       it == <<ev.t, 100 + ev.t>>
+       it == <<ev.t, Code(ev.t)>>
        cap == IF Tr.kind = "batch" THEN ev.t ELSE Tr.cap
    IN /\ Ck("storage.kind_law", after \in St!Successors(Tr.kind, Tr.cap, Tr.targets, before, it))
       /\ Ck("storage.submultiset", /\ \A i \in 1..Len(after.sx) : after.sx[i] \in 1..ev.t
                                    /\ \A i, j \in 1..Len(after.sx) : i # j => after.sx[i] # after.sx[j])
       /\ Ck("storage.count", Len(after.sx) = (IF ev.t < cap THEN ev.t ELSE cap) /\ ev.len = Len(after.sx))
       /\ Ck("storage.aligned", IF Tr.targets THEN /\ Len(after.sy) = Len(after.sx)
-                                                   /\ \A i \in 1..Len(after.sx) : after.sy[i] = 100 + after.sx[i]
+                                                   /\ \A i \in 1..Len(after.sx) : after.sy[i] = Code(after.sx[i])
                                ELSE Len(after.sy) = 0)
 \* C18: a replaced slot is explained by a uniform draw over the capacity from the global generators
 SlotExplained(ev) ==
